@@ -62,6 +62,12 @@ func TestExh_C07(t *testing.T) {
 			run(mk(req, 0, "p2r", k, true))
 		}
 	}
+	// the plugin that dies on the request's arrival, for every length of the incomplete frame it leaves
+	for k := 1; k <= 71; k += ev.Pick(3, 1) {
+		c := mk("create", 0, "", 0, false)
+		c.Plugins[1].Fault = Fault{Kind: "dying", K: k}
+		run(c)
+	}
 	r.SetExtra("sweep_cases", n)
 	r.SetExtra("sweep_offsets_small", small)
 }
